@@ -61,9 +61,36 @@ func runSolver(ctx context.Context, name string, file string, timeoutS int) solv
 }
 
 // discharge runs the obligation: z3-new first; if it does not answer unsat, the other two are raced.
+var (
+	failMu    sync.Mutex
+	failCount = map[string]int{}
+)
+
+func noteFail(fn string) {
+	failMu.Lock()
+	failCount[fn]++
+	failMu.Unlock()
+}
+
+func failsOf(fn string) int {
+	failMu.Lock()
+	defer failMu.Unlock()
+	return failCount[fn]
+}
+
 func discharge(o *Obligation, cfg SolverCfg) {
 	if o.Status != "" {
 		return
+	}
+	defer func() {
+		if o.Status != "proved" {
+			noteFail(o.Func)
+		}
+	}()
+	// once a function already has several undischarged obligations the rest get a short budget
+	// (cascades after a broken step otherwise cost minutes of timeouts)
+	if failsOf(o.Func) >= 4 && cfg.TimeoutS > 3 {
+		cfg.TimeoutS = 3
 	}
 	dir := cfg.OutDir
 	base := filepath.Join(dir, sanitize(o.Name))
